@@ -33,7 +33,8 @@
 (***************************************************************************)
 EXTENDS Naturals, Sequences, FiniteSets, TLC, Json, IOUtils
 
-CONSTANTS MaxN, Source, DocStates
+CONSTANTS MaxN, Source, DocStates,
+          EarlyOrder     \* "allbases" | "c3": what Class.mro() answers BEFORE post-processing (see EarlyMro)
 
 Bad    == <<0>>        \* Python: TypeError "Cannot create a consistent method resolution order"
 Cyclic == <<0, 0>>     \* not a Python program at all (a class cannot be its own ancestor)
@@ -149,6 +150,19 @@ PdSources(c) == <<c>> \o SelectSeq(Tail(mro[c]), Defines)
 PdDocOwner(c) == LET s == SelectSeq(PdSources(c), HasDoc) IN
     IF Len(s) = 0 THEN 0 ELSE IF member[s[1]] = "doc" THEN s[1] ELSE 0      \* "" stops the search, (None, source)
 
+\* ---- a dotted lookup `C.f` made WHILE the modules are analysed (an alias statement `a = C.f`, a base `class X(C.f)`
+\*      placed after the class statements): expandName -> Class.find -> Class.mro() with _mro still None
+\*      (model.py:707-716): "allbases" = depth-first over the bases resolved so far, duplicates and all (the code as
+\*      it is); "c3" = linearise what is known so far, depth-first only when that fails (the proposed repair).
+\*      Modelled for Source = "members" (one module, every base resolved in the first pass).
+EarlyMro(c) == IF EarlyOrder = "c3" THEN (LET m == PdMro(c) IN IF m = Bad THEN AllBases(c, {}) ELSE m)
+                                     ELSE AllBases(c, {})
+PdEarlyFind(c) == IF Source = "members" THEN FirstDefining(EarlyMro(c)) ELSE 0
+\* known finding early-lookup-depth-first: the early answer is the first definition in depth-first order, not along C3
+KF_EarlyLookupDepthFirst(c) == /\ EarlyOrder = "allbases"
+                               /\ PdEarlyFind(c) # RefFind(c)
+                               /\ PdEarlyFind(c) = FirstDefining(AllBases(c, {}))
+
 \* ===================================================================== behaviours
 Ident(m) == [i \in 1..m |-> i]
 InitBuild == /\ Source \in {"enum", "members"} /\ cid = 0 /\ n = 0
@@ -203,6 +217,12 @@ FindIsLookup == Done => \A c \in Classes : Consistent(c) => PdFind(c) = RefFind(
 SourcesAreOverridden == Done => \A c \in Classes : (Consistent(c) /\ Defines(c)) => PdSources(c) = RefSources(c)
 DocIsInherited == Done => \A c \in Classes : (Consistent(c) /\ Defines(c)) => PdDocOwner(c) = RefDocOwner(c)
 
+\* a lookup through the class gives the same definition whenever it is made
+EarlyIsLookupAt(c) == PdEarlyFind(c) = RefFind(c)
+EarlyIsLookup == (Done /\ Source = "members") => \A c \in Classes : Consistent(c) => EarlyIsLookupAt(c)
+\* ... checked modulo the known finding, so that TLC still reports any OTHER deviation
+EarlyIsLookupOrKF == (Done /\ Source = "members") => \A c \in Classes : Consistent(c) => (EarlyIsLookupAt(c) \/ KF_EarlyLookupDepthFirst(c))
+
 \* ===================================================================== emission
 PerClass(F(_)) == [c \in 1..n |-> F(c)]
 RefFindE(c) == IF Consistent(c) THEN RefFind(c) ELSE 0
@@ -215,5 +235,6 @@ Emit == Done => PrintT(ToJson([cid |-> cid, n |-> n, bases |-> bases, born |-> b
                                mro |-> mro, warn |-> warn,
                                find_ref |-> PerClass(RefFindE), find_pd |-> PerClass(PdFind),
                                src_ref |-> PerClass(RefSourcesE), src_pd |-> PerClass(PdSourcesE),
-                               doc_ref |-> PerClass(RefDocE), doc_pd |-> PerClass(PdDocE)]))
+                               doc_ref |-> PerClass(RefDocE), doc_pd |-> PerClass(PdDocE),
+                               early_pd |-> PerClass(PdEarlyFind)]))
 =============================================================================
